@@ -102,10 +102,6 @@ def isCtxName : PyExpr → Bool
   | .name "ctx" => true
   | _ => false
 
-def isFnVal : Val → Bool
-  | .fn _ => true
-  | _ => false
-
 /-- keyword argument lookup -/
 def kwGet (kw : List (String × PyExpr)) (k : String) : Option PyExpr :=
   match kw with
